@@ -61,6 +61,13 @@ PROPS = {
         explanation="Theorems (all ordered pairs of nodes whose maps have unique keys, every generated schema field): Diff of a node with itself is nil; Diff is nil exactly when every attribute has the same content (sets for lists/maps, seconds for dates); each differing attribute contributes exactly one to DiffCount; applying the reported additions and removals to the first node rebuilds the second node's attributes (explicit apply_diff). Tie: Node.Diff observed (Added, Removed, DiffCount) on random pairs vs Model/Diff.v; oracle recomputes sameness, count and reconstruction by reflection over the schema.",
         assumptions=["modelled: pkg/sbom/diff.go (Model/Diff.v); persons and external references are identified by their flat strings, as in the code", "map-valued attributes are association lists with unique keys (premise maps_unique; true of every Go map)"],
     ),
+    "C18": dict(
+        props_v="Props/C18.v",
+        corr_v=["Corr/CheckC18.v"],
+        n_quick=150, n_thorough=5000,
+        explanation="Theorems (all histories of constructor calls with arbitrary option lists, interleaved with calls): the configuration of the i-th instance equals the library defaults with its own constructor options applied (induction over the history with a heap invariant: instance objects are distinct from each other and from the package-level defaults object); the defaults object is never written; a constructor without options yields the defaults; a per-call option set changes no instance (removing the call from any history leaves every configuration unchanged). Tie: random writer and reader histories against fake drivers that record the options actually used; every live instance's option fields read after every step.",
+        assumptions=["modelled: pkg/writer New + options + WriteStream(WithOptions), pkg/reader New + options + ParseStreamWithOptions, as a heap of option objects (Model/Opts.v)", "the fall-back of a per-call option set (format -> instance, render options -> library defaults, format options -> none) is modelled as coded and validated by correspondence; the property does not fix it"],
+    ),
 }
 
 NOT_APPLICABLE = {}
